@@ -282,6 +282,9 @@ impl<'a> Exec<'a> {
 			(prop, class.to_string())
 		};
 		let class = class.as_str();
+		if self.viol.iter().any(|v| v.prop == prop && v.class == class) {
+			return
+		}
 		if self.viol.len() < 8 {
 			self.viol.push(Violation {
 				prop: prop.to_string(),
@@ -290,6 +293,17 @@ impl<'a> Exec<'a> {
 				op_index: self.op_index,
 			});
 		}
+	}
+
+	/// Does the run end here? A plain structural finding (C14) in a scenario owned by another
+	/// property does not end it: the scenario's own oracles may still have something to say about
+	/// the same defect (a corrupt free list shows up as a wrong read a few operations later), and
+	/// a check reports only violations of its own property.
+	pub fn should_stop(&self) -> bool {
+		if self.viol.is_empty() {
+			return false
+		}
+		self.viol.len() >= 3 || self.viol.iter().any(|v| v.prop == self.map_prop || v.prop != "C14" || v.class.contains(':'))
 	}
 
 	pub fn db(&self) -> &Db {
